@@ -99,3 +99,21 @@ package satisfaction
 //@   loop 2 invariant [satisfy] forall k int :: 0 <= k && k < resultInsertIndex ==> meets(result[k].Alternative, dmp.Criteria, result[k].Evaluation.(SatisfactionEvaluation).SatisfiedThresholds)
 //@   loop 2 invariant [order] forall k int, m int :: 0 <= k && k < m && m < resultInsertIndex ==> result[k].Evaluation.(SatisfactionEvaluation).ThresholdsIndex <= result[m].Evaluation.(SatisfactionEvaluation).ThresholdsIndex
 //@   loop 2 invariant [left] forall k int :: 0 <= k && k < len(leftToChoice) ==> fromInput(leftToChoice[k], current, considered)
+
+// the alternatives that met no level: appended after the accepted ones, in order, with the index after the last level and
+// the fallback thresholds
+//@ func fillRemainingAlternatives
+//@   property C13 C01
+//@   fnparam lowestThresholdSup pure
+//@   requires 0 <= resultInsertIndex && resultInsertIndex + len(leftToChoice) <= len(result) && resultInsertIndex + len(leftToChoice) <= len(resultIds)
+//@   assigns result, resultIds
+//@   ensures [leftovers_follow_in_order] forall k int :: 0 <= k && k < len(leftToChoice) ==> result[resultInsertIndex + k].Alternative == leftToChoice[k] && resultIds[resultInsertIndex + k] == leftToChoice[k].Id
+//@             && typeis(result[resultInsertIndex + k].Evaluation, SatisfactionEvaluation) && result[resultInsertIndex + k].Evaluation.(SatisfactionEvaluation).ThresholdsIndex == thresholdIndex + 1
+//@   ensures [accepted_untouched] (forall k int :: 0 <= k && k < len(result) && (k < resultInsertIndex || k >= resultInsertIndex + len(leftToChoice)) ==> result[k] == old(result[k]))
+//@             && (forall k int :: 0 <= k && k < len(resultIds) && (k < resultInsertIndex || k >= resultInsertIndex + len(leftToChoice)) ==> resultIds[k] == old(resultIds[k]))
+//@   loop 1 invariant [position] $resultInsertIndex == resultInsertIndex + iter
+//@   loop 1 invariant [filled] forall k int :: 0 <= k && k < iter ==> result[resultInsertIndex + k].Alternative == leftToChoice[k] && resultIds[resultInsertIndex + k] == leftToChoice[k].Id
+//@             && typeis(result[resultInsertIndex + k].Evaluation, SatisfactionEvaluation) && result[resultInsertIndex + k].Evaluation.(SatisfactionEvaluation).ThresholdsIndex == thresholdIndex + 1
+//@   loop 1 invariant [rest] (forall k int :: 0 <= k && k < len(result) && (k < resultInsertIndex || k >= resultInsertIndex + iter) ==> result[k] == old(result[k]))
+//@             && (forall k int :: 0 <= k && k < len(resultIds) && (k < resultInsertIndex || k >= resultInsertIndex + iter) ==> resultIds[k] == old(resultIds[k]))
+//@   loop 1 invariant [input] unchanged(leftToChoice)
